@@ -114,6 +114,10 @@ func (f *Fragment) Size() uint64 {
 func (f *Fragment) GetFullSamples(trex *TrexBox) ([]FullSample, error) {
 	moof := f.Moof
 	mdat := f.Mdat
+	if mdat != nil && mdat.IsLazy() {
+		// The sample data is not in memory (lazily decoded mdat, or payload size set for separate writing)
+		return nil, fmt.Errorf("mdat is lazy: use GetSampleInterval and MdatBox.ReadData to get sample data")
+	}
 	//seqNr := moof.Mfhd.SequenceNumber
 	var traf *TrafBox
 	foundTrak := false
